@@ -133,18 +133,25 @@ def gen_cases(rng, tier):
             continue
         cs.append({"mode": "optimize", "poly": poly, "spacing": sp, "rot_step": rng.choice([5.0, 7.5, 15.0]), "rot_start": rng.choice([-90.0, -45.0]),
                    "rot_stop": rng.choice([30.0, 90.0]), "timeout": 60, "nogo": [ng]})
-    # three or more no-go zones in a line (one row crosses them all)
+    # three or more no-go zones in a line (one row crosses them all): buildings along the middle of a long, slightly irregular lot;
+    # every rotation of the window is also generated on its own (each is a field RowWise can return)
     for _ in range(2 if tier == "quick" else 10):
-        W, Hh = rng.choice([(200.0, 60.0), (160.0, 50.0)])
+        W, Hh = rng.choice([(200.0, 60.0), (170.0, 56.0), (240.0, 70.0)])
+        lot = [[10.0, 10.0], [10.0 + W - rng.uniform(0, 6), 10.0 + rng.uniform(0, 3)], [10.0 + W, 10.0 + Hh - rng.uniform(0, 4)], [10.0 + rng.uniform(0, 3), 10.0 + Hh]]
         sp = rng.choice([8.0, 9.0, 11.0])
-        zs = []
         nz = rng.choice([3, 3, 4])
+        zs = []
         for k in range(nz):
-            cx = W * (k + 1) / (nz + 1)
-            cy = Hh / 2 + rng.uniform(-3, 3)
-            zs.append(convex(rng, rng.randint(4, 6), cx, cy, rng.uniform(6, 10)))
-        if all(is_convex(z) for z in zs):
-            cs.append({"mode": "optimize", "poly": [[0.0, 0.0], [W, 0.0], [W, Hh], [0.0, Hh]], "spacing": sp, "rot_step": 3.0, "rot_start": -6.0, "rot_stop": 7.0, "timeout": 60, "nogo": zs})
+            cx = 10.0 + W * (k + 1) / (nz + 1) + rng.uniform(-4, 4)
+            cy = 10.0 + Hh / 2 + rng.uniform(-2, 2)
+            w2, h2 = rng.uniform(6, 9), rng.uniform(7, 10)
+            z = [[cx - w2, cy - h2 + rng.uniform(0, 1)], [cx + w2, cy - h2], [cx + w2 + rng.uniform(0, 1), cy + h2], [cx - w2, cy + h2 + rng.uniform(0, 1)]]
+            zs.append([[round(a_, 3), round(b_, 3)] for a_, b_ in z])
+        if not (is_convex(lot) and all(is_convex(z) and all(strictly_inside(q_, lot, 1.0) for q_ in z) for z in zs)):
+            continue
+        cs.append({"mode": "optimize", "poly": lot, "spacing": sp, "rot_step": 2.0, "rot_start": -6.0, "rot_stop": 6.5, "timeout": 60, "nogo": zs})
+        for deg in (-6.0, -4.0, -2.0, 0.0, 2.0, 4.0, 6.0):
+            cs.append({"mode": "config", "poly": lot, "spacing": sp, "rotate": deg, "rot_start": deg, "rot_step": 1.0, "rot_stop": deg + 0.5, "timeout": 60, "nogo": zs})
     # corners on the axes / at the origin, edges on the axes, the full [-90, 90] window
     cs.append({"mode": "optimize", "poly": [[0, 0], [80, 0], [40, 60]], "spacing": 10.0, "rot_step": 5.0, "rot_start": -85.0, "rot_stop": 85.0, "timeout": 60})
     cs.append({"mode": "optimize", "poly": [[0, 10], [60, 0], [90, 50], [20, 70]], "spacing": 12.0, "rot_step": 5.0, "rot_start": -60.0, "rot_stop": 60.0, "timeout": 60})
@@ -235,7 +242,7 @@ def run(chk):
             oracle(chk, kf["input"], rr[0])
     # sweep: the optimiser returns the field of the first rotation with the most boreholes
     sw = []
-    plain = [k for k, c in enumerate(cases) if c.get("perimeter") is None]
+    plain = [k for k, c in enumerate(cases) if c.get("perimeter") is None and c["mode"] == "optimize"]
     plain = plain[: (7 if quick else 35)]
     for k in plain:
         sw.append(dict(cases[k], mode="sweep_counts"))
